@@ -423,19 +423,20 @@ Lemma Forall2_set rs rs' : Forall2 run_post rs rs' ->
 Proof. induction 1 as [|r r' t t' Hr Ht IH]; intros p; [tauto|].
   simpl. rewrite !map_app, !in_app_iff, IH, (rp_set _ _ Hr). tauto. Qed.
 
+(* a block is cut into consecutive runs, each run is replaced by its sorted, deduplicated version *)
 Definition block_post (specs out : list spec) : Prop :=
-  exists rs', out = concat rs' /\ Forall2 run_post (runs specs) rs'.
+  exists rs rs', concat rs = specs /\ out = concat rs' /\ Forall2 run_post rs rs'.
 
 Lemma block_post_set specs out : block_post specs out ->
   forall p, In p (map np_of out) <-> In p (map np_of specs).
-Proof. intros (rs' & -> & H) p. rewrite (Forall2_set _ _ H). unfold runs. now rewrite runs_loop_concat. Qed.
+Proof. intros (rs & rs' & <- & -> & H) p. apply (Forall2_set _ _ H). Qed.
 
 Lemma Forall2_atomic rs rs' : Forall2 run_post rs rs' -> incl (map ident_of (concat rs')) (map ident_of (concat rs)).
 Proof. induction 1 as [|r r' t t' Hr Ht IH]; [simpl; apply incl_refl|].
   simpl. rewrite !map_app. apply incl_app; [apply incl_appl, run_post_atomic, Hr|apply incl_appr, IH]. Qed.
 
 Lemma block_post_atomic specs out : block_post specs out -> incl (map ident_of out) (map ident_of specs).
-Proof. intros (rs' & -> & H). pose proof (Forall2_atomic _ _ H) as A. unfold runs in A. now rewrite runs_loop_concat in A. Qed.
+Proof. intros (rs & rs' & <- & -> & H). apply (Forall2_atomic _ _ H). Qed.
 
 Lemma Forall2_sub rs rs' : Forall2 run_post rs rs' ->
   exists dropped, Permutation (map ident_of (concat rs)) (map ident_of (concat rs') ++ map ident_of dropped) /\
@@ -453,8 +454,7 @@ Proof. induction 1 as [|r r' t t' Hr Ht IH]; [exists []; simpl; auto|].
 Lemma block_post_drops specs out : block_post specs out ->
   exists dropped, Permutation (map ident_of specs) (map ident_of out ++ map ident_of dropped) /\
                   Forall (dropped_ok out) dropped.
-Proof. intros (rs' & -> & H). destruct (Forall2_sub _ _ H) as (d & P & F). exists d. split; auto.
-  unfold runs in P. now rewrite runs_loop_concat in P. Qed.
+Proof. intros (rs & rs' & <- & -> & H). destruct (Forall2_sub _ _ H) as (d & P & F). exists d. split; auto. Qed.
 
 (* ------------------------------------------------------------------ the whole file *)
 Fixpoint file_post (ds ds' : list decl) : Prop :=
@@ -470,7 +470,7 @@ Proof. intros Hs. induction ds as [|d r IH]; [exists []; simpl; auto|].
   destruct IH as (r' & H1 & H2). destruct d as [[|] sp|].
   - destruct (sort_block_post srt Hs sp) as (rs' & H3 & H4).
     exists (ImportDecl true (concat rs') :: r'). cbn [sort_imports]. rewrite H3, H1. simpl. split; auto.
-    exists (concat rs'), r'. repeat split; auto. exists rs'. auto.
+    exists (concat rs'), r'. repeat split; auto. exists (runs sp), rs'. repeat split; auto. apply runs_loop_concat.
   - exists (ImportDecl false sp :: r'). cbn [sort_imports]. rewrite H1. simpl. eauto.
   - exists (OtherDecl :: r). simpl. auto. Qed.
 
@@ -632,3 +632,141 @@ Lemma sort_imports_atomic srt : sorter_ok srt -> forall ds ds', sort_imports srt
   incl (map ident_of (file_specs ds')) (map ident_of (file_specs ds)).
 Proof. intros Hs ds ds' H. destruct (sort_imports_post srt Hs ds) as (x & H1 & H2).
   rewrite H1 in H. injection H as <-. now apply file_post_atomic. Qed.
+
+(* ================================================================================================
+   The model with the token.File line table (the one the differential run executes).
+   Whatever the line table does, the specs that come out are those of the layout-free functions
+   applied to SOME cutting of each block into consecutive runs; so every statement above about
+   sets, duplicates, sortedness of each run and whole records holds for it, for every line table.
+   ================================================================================================ *)
+Lemma dedupe_m_cons2 lines s n r :
+  dedupe_m lines (s :: n :: r) =
+  if collapse s n then lines' <- merge_line lines (line_at lines (spos s)) ;; dedupe_m lines' (n :: r)
+  else dl <- dedupe_m lines (n :: r) ;; Ok (s :: fst dl, snd dl).
+Proof. reflexivity. Qed.
+
+Lemma dedupe_m_spec : forall l lines d lines', dedupe_m lines l = Ok (d, lines') -> d = dedupe l.
+Proof. induction l as [|s r IH]; intros lines d lines' H.
+  - simpl in H. injection H as <- <-. reflexivity.
+  - destruct r as [|n r].
+    + simpl in H. injection H as <- <-. reflexivity.
+    + rewrite dedupe_cons2. rewrite dedupe_m_cons2 in H. destruct (collapse s n).
+      * destruct (merge_line lines (line_at lines (spos s))) as [l1| |]; try discriminate. cbn [bind] in H. eapply IH; eauto.
+      * destruct (dedupe_m lines (n :: r)) as [[d0 l0]| |] eqn:E; try discriminate. cbn in H. injection H as <- <-.
+        f_equal. eapply IH; eauto. Qed.
+
+Lemma sort_specs_m_spec srt lines run out lines' :
+  sort_specs_m srt lines run = Ok (out, lines') -> sort_specs srt run = Ok out.
+Proof. unfold sort_specs_m, sort_specs. destruct (Nat.leb (length run) 1).
+  - intros H. injection H as <- <-. reflexivity.
+  - destruct (dedupe_m lines (srt run)) as [[d l1]| |] eqn:E; try discriminate. cbn [bind fst snd].
+    apply dedupe_m_spec in E. subst d.
+    destruct (reassign (map span_of run) (dedupe (srt run))) as [o| |]; try discriminate. cbn [bind].
+    intros H. injection H as <- <-. reflexivity. Qed.
+
+Definition sorted_as srt (r r' : list spec) : Prop := sort_specs srt r = Ok r'.
+
+Lemma block_loop_spec srt : forall l lines prev cur out res lines',
+  block_loop srt lines prev cur l out = Ok (res, lines') ->
+  exists rs rs', concat rs = cur ++ l /\ res = out ++ concat rs' /\ Forall2 (sorted_as srt) rs rs'.
+Proof.
+  induction l as [|s r IH]; intros lines prev cur out res lines' H.
+  - cbn [block_loop] in H. destruct (sort_specs_m srt lines cur) as [[o l1]| |] eqn:E; try discriminate.
+    cbn in H. injection H as <- <-. apply sort_specs_m_spec in E.
+    exists [cur], [o]. simpl. rewrite !app_nil_r. repeat split; auto.
+  - cbn [block_loop] in H.
+    assert (Hstay : forall H' : block_loop srt lines (Some s) (cur ++ [s]) r out = Ok (res, lines'),
+              exists rs rs', concat rs = cur ++ s :: r /\ res = out ++ concat rs' /\ Forall2 (sorted_as srt) rs rs').
+    { intros H'. destruct (IH _ _ _ _ _ _ H') as (rs & rs' & H1 & H2 & H3). exists rs, rs'. repeat split; auto.
+      rewrite H1, <- app_assoc. reflexivity. }
+    destruct prev as [p|]; [|auto].
+    destruct (line_at lines (spos s) >? 1 + line_at lines (send p))%Z; [|auto].
+    destruct (sort_specs_m srt lines cur) as [[o l1]| |] eqn:E; try discriminate. cbn [bind fst snd] in H.
+    apply sort_specs_m_spec in E.
+    destruct (IH _ _ _ _ _ _ H) as (rs & rs' & H1 & H2 & H3).
+    exists (cur :: rs), (o :: rs'). simpl. rewrite H1, H2, <- app_assoc. repeat split; auto.
+Qed.
+
+Lemma sorted_as_post srt : sorter_ok srt -> forall rs rs', Forall2 (sorted_as srt) rs rs' -> Forall2 run_post rs rs'.
+Proof. intros Hs. induction 1 as [|r r' t t' Hr Ht IH]; constructor; auto.
+  destruct (sort_specs_post srt Hs r) as (o & H1 & H2). unfold sorted_as in Hr. rewrite H1 in Hr. injection Hr as <-. exact H2. Qed.
+
+Lemma sort_block_m_spec srt : sorter_ok srt -> forall lines rp specs out lines',
+  sort_block_m srt lines rp specs = Ok (out, lines') -> block_post specs out.
+Proof.
+  intros Hs lines rp specs out lines' H. unfold sort_block_m in H.
+  destruct (block_loop srt lines None [] specs []) as [[o l1]| |] eqn:E; try discriminate. cbn [bind fst snd] in H.
+  assert (out = o).
+  { destruct (rev o) as [|lst t]; [injection H as <- <-; reflexivity|].
+    match type of H with context [rparen_loop ?a ?b ?c] => destruct (rparen_loop a b c) as [l2| |] end; try discriminate.
+    cbn in H. injection H as <- <-. reflexivity. }
+  subst o. destruct (block_loop_spec srt _ _ _ _ _ _ _ E) as (rs & rs' & H1 & H2 & H3).
+  exists rs, rs'. simpl in H1, H2. repeat split; auto. now apply (sorted_as_post srt). Qed.
+
+Definition to_decl (d : ldecl) : decl :=
+  match d with LImport lp _ sp => ImportDecl lp sp | LOther => OtherDecl end.
+(* what SortImports must not touch: the kind of each declaration, its parentheses *)
+Definition frame (d : ldecl) : option (bool * Z) :=
+  match d with LImport lp rp _ => Some (lp, rp) | LOther => None end.
+
+Lemma sort_imports_m_spec srt : sorter_ok srt -> forall ds lines ds' lines',
+  sort_imports_m srt lines ds = Ok (ds', lines') ->
+  file_post (map to_decl ds) (map to_decl ds') /\ map frame ds' = map frame ds.
+Proof.
+  intros Hs. induction ds as [|d r IH]; intros lines ds' lines' H.
+  - simpl in H. injection H as <- <-. simpl. auto.
+  - destruct d as [[|] rp sp|].
+    + cbn [sort_imports_m] in H.
+      destruct (sort_block_m srt lines rp sp) as [[o l1]| |] eqn:E; try discriminate. cbn [bind fst snd] in H.
+      destruct (sort_imports_m srt l1 r) as [[r' l2]| |] eqn:E2; try discriminate. cbn in H. injection H as <- <-.
+      destruct (IH _ _ _ E2) as [H1 H2]. split.
+      * simpl. exists o, (map to_decl r'). repeat split; auto. eapply sort_block_m_spec; eauto.
+      * simpl. now rewrite H2.
+    + cbn [sort_imports_m] in H.
+      destruct (sort_imports_m srt lines r) as [[r' l2]| |] eqn:E2; try discriminate. cbn in H. injection H as <- <-.
+      destruct (IH _ _ _ E2) as [H1 H2]. split.
+      * simpl. exists (map to_decl r'). auto.
+      * simpl. now rewrite H2.
+    + simpl in H. injection H as <- <-. simpl. auto.
+Qed.
+
+Definition lfile_specs (ds : list ldecl) : list spec := file_specs (map to_decl ds).
+
+Lemma sort_imports_m_set srt : sorter_ok srt -> forall ds lines ds' lines', sort_imports_m srt lines ds = Ok (ds', lines') ->
+  forall p, In p (map np_of (lfile_specs ds')) <-> In p (map np_of (lfile_specs ds)).
+Proof. intros Hs ds lines ds' lines' H. apply file_post_set. eapply sort_imports_m_spec; eauto. Qed.
+
+Lemma sort_imports_m_drops srt : sorter_ok srt -> forall ds lines ds' lines', sort_imports_m srt lines ds = Ok (ds', lines') ->
+  exists dropped, Permutation (map ident_of (lfile_specs ds)) (map ident_of (lfile_specs ds') ++ map ident_of dropped) /\
+                  Forall (dropped_ok (lfile_specs ds')) dropped.
+Proof. intros Hs ds lines ds' lines' H. apply file_post_drops. eapply sort_imports_m_spec; eauto. Qed.
+
+Lemma sort_imports_m_atomic srt : sorter_ok srt -> forall ds lines ds' lines', sort_imports_m srt lines ds = Ok (ds', lines') ->
+  incl (map ident_of (lfile_specs ds')) (map ident_of (lfile_specs ds)).
+Proof. intros Hs ds lines ds' lines' H. apply file_post_atomic. eapply sort_imports_m_spec; eauto. Qed.
+
+(* ---- what the line table breaks when two specs share a line (vm_compute witnesses = the known findings) *)
+Definition mk (i : nat) (p : N) (a b : Z) : spec := mkSpec i [] [p] false [] a b 0 0.
+
+(* import (\n\t"z"; "z"\n\n\t"a"\n)\n  : after SortImports the specs z, a form ONE group that is not sorted *)
+Lemma glued_witness :
+  let lines := [0; 9; 19; 20; 25]%Z in
+  let ds := [LImport true 25 [mk 0 122 10 13; mk 1 122 15 18; mk 2 97 21 24]] in
+  exists out lines', sort_imports_lines_exec lines ds = Ok ([LImport true 25 out], lines') /\
+    map (map sid) (groups_in lines [mk 0 122 10 13; mk 1 122 15 18; mk 2 97 21 24]) = [[0; 1]; [2]]%nat /\
+    map (map sid) (groups_in lines' out) = [[1; 2]]%nat /\ forallb path_sorted (groups_in lines' out) = false.
+Proof. vm_compute. eexists. eexists. repeat split. Qed.
+
+(* import ("a"; "a")\n  : the duplicate is on the last line of the file, MergeLine panics *)
+Lemma merge_panic_witness :
+  sort_imports_lines_exec [0%Z] [LImport true 16 [mk 0 97 8 11; mk 1 97 13 16]] = Panic.
+Proof. vm_compute. reflexivity. Qed.
+
+(* import (\n\t"z"; "z"; "z"; "z"\n\n\t"b"\n\n\t"a"\n)\n : the third merge removes the line between the two later runs,
+   which are then sorted as ONE run: the result differs from sorting the runs of the original layout *)
+Lemma later_runs_witness :
+  let lines := [0; 9; 29; 30; 35; 36; 41]%Z in
+  let sp := [mk 0 122 10 13; mk 1 122 15 18; mk 2 122 20 23; mk 3 122 25 28; mk 4 98 31 34; mk 5 97 37 40] in
+  exists out lines', sort_imports_lines_exec lines [LImport true 41 sp] = Ok ([LImport true 41 out], lines') /\
+    map sid out = [3; 5; 4]%nat /\ map (map sid) (groups_in lines sp) = [[0; 1; 2; 3]; [4]; [5]]%nat.
+Proof. vm_compute. eexists. eexists. repeat split. Qed.
